@@ -689,6 +689,16 @@ func (e *ethEnv) newEthLock() {
 		case "failed":
 			label = "/replay-failed"
 		}
+		if c.Rng.Intn(4) == 0 {
+			// the same signed Ethereum transaction followed by surplus bytes: not a second transaction, and the
+			// tracker name is derived from the submitted bytes
+			padded := append(append([]byte{}, h.raw...), e.garbage()...)
+			for len(padded) < len(h.raw)+32 {
+				padded = append(padded, byte(c.Rng.Intn(256)))
+			}
+			e.emit(e.lockTx(ethKLock, who.Addr, padded, who), ethKLock+"/replay-trailing-bytes")
+			return
+		}
 		e.emit(e.lockTx(ethKLock, who.Addr, h.raw, who), ethKLock+label)
 		if h.outcome == "failed" {
 			t := e.track(ethKLock, who, h.raw, h.amount)
@@ -850,6 +860,16 @@ func (e *ethEnv) newErcLock() {
 			label = "/replay-passed"
 		case "failed":
 			label = "/replay-failed"
+		}
+		if c.Rng.Intn(4) == 0 {
+			// the same signed Ethereum transaction followed by surplus bytes: not a second transaction, and the
+			// tracker name is derived from the submitted bytes
+			padded := append(append([]byte{}, h.raw...), e.garbage()...)
+			for len(padded) < len(h.raw)+32 {
+				padded = append(padded, byte(c.Rng.Intn(256)))
+			}
+			e.emit(e.lockTx(ethKErcLock, who.Addr, padded, who), ethKErcLock+"/replay-trailing-bytes")
+			return
 		}
 		e.emit(e.lockTx(ethKErcLock, who.Addr, h.raw, who), ethKErcLock+label)
 		if h.outcome != "" {
@@ -1040,6 +1060,16 @@ func (e *ethEnv) newRedeem(kind string) bool {
 			label = "/replay-passed"
 		case "failed":
 			label = "/replay-failed"
+		}
+		if c.Rng.Intn(4) == 0 {
+			// the same signed Ethereum transaction followed by surplus bytes: not a second transaction, and the
+			// tracker name is derived from the submitted bytes
+			padded := append(append([]byte{}, h.raw...), e.garbage()...)
+			for len(padded) < len(h.raw)+32 {
+				padded = append(padded, byte(c.Rng.Intn(256)))
+			}
+			e.emit(e.redeemTx(kind, h.owner.Addr, padded, h.owner), kind+"/replay-trailing-bytes")
+			return true
 		}
 		e.emit(e.redeemTx(kind, h.owner.Addr, h.raw, h.owner), kind+label)
 	case 5: // Owner is somebody else's account (only Validate would notice the signer mismatch)
